@@ -275,16 +275,37 @@ func (w *weaver) accStmts(s ast.Stmt) (before, after []ast.Stmt) {
 	}
 	seen := map[string]bool{}
 	for _, a := range accs {
-		key := a.text + fmt.Sprint(a.write)
+		key := a.text + fmt.Sprint(a.write, a.app)
 		if seen[key] {
 			continue
 		}
 		seen[key] = true
-		st := exprStmt(call("vhAcc",
-			thunk(&ast.FieldList{List: []*ast.Field{{Type: &ast.InterfaceType{Methods: &ast.FieldList{}}}}},
-				&ast.ReturnStmt{Results: []ast.Expr{&ast.UnaryExpr{Op: token.AND, X: a.expr}}}),
-			lit(a.name), id(strconv.FormatBool(a.write)), lit(w.site(s))))
-		w.count("acc")
+		var st ast.Stmt
+		if a.idx != nil || a.app {
+			var first ast.Expr
+			if a.app {
+				first = intLit(-1) // resolved to len(slice) at run time
+			} else {
+				first = call("int", a.idx)
+			}
+			st = exprStmt(call("vhAccIdx",
+				thunk(&ast.FieldList{List: []*ast.Field{{Type: &ast.InterfaceType{Methods: &ast.FieldList{}}}, {Type: id("int")}, {Type: id("int")}}},
+					&ast.ReturnStmt{Results: []ast.Expr{a.expr, first, a.cnt}}),
+				lit(a.name), id(strconv.FormatBool(a.write)), lit(w.site(s))))
+			w.count("accidx")
+		} else {
+			st = exprStmt(call("vhAcc",
+				thunk(&ast.FieldList{List: []*ast.Field{{Type: &ast.InterfaceType{Methods: &ast.FieldList{}}}}},
+					&ast.ReturnStmt{Results: []ast.Expr{&ast.UnaryExpr{Op: token.AND, X: a.expr}}}),
+				lit(a.name), id(strconv.FormatBool(a.write)), lit(w.site(s))))
+			w.count("acc")
+		}
+		if a.app {
+			// needs the length before the append; an append statement holds
+			// no synchronisation (checked in collect), so before == after
+			before = append(before, st)
+			continue
+		}
 		if a.write && !terminal {
 			after = append(after, st)
 		} else {
@@ -324,8 +345,9 @@ func (w *weaver) stmt(s ast.Stmt) (before []ast.Stmt, repl ast.Stmt, after []ast
 			return nil, w.wrapUnsupported("send on a channel expression with side effects", s), nil
 		}
 		w.count("send")
-		before = []ast.Stmt{exprStmt(call("vhPre", intLit(kSend), chTxt, lit(st)))}
-		after = []ast.Stmt{exprStmt(call("vhPost", intLit(kSend), chTxt, lit(st), intLit(0)))}
+		tk := w.tmp("g")
+		before = []ast.Stmt{&ast.AssignStmt{Lhs: []ast.Expr{id(tk)}, Tok: token.DEFINE, Rhs: []ast.Expr{call("vhPre", intLit(kSend), chTxt, lit(st))}}}
+		after = []ast.Stmt{exprStmt(call("vhPost", id(tk), intLit(kSend), chTxt, lit(st), intLit(0)))}
 	case *ast.IncDecStmt:
 		s.X = w.expr(s.X)
 	case *ast.AssignStmt:
@@ -399,8 +421,27 @@ func (w *weaver) stmt(s ast.Stmt) (before []ast.Stmt, repl ast.Stmt, after []ast
 				return w.rangeChan(s)
 			}
 		}
+		name, isSlice := w.sliceName(s.X)
 		s.X = w.expr(s.X)
 		w.block(s.Body)
+		if isSlice && (s.Tok == token.DEFINE || s.Tok == token.ILLEGAL) {
+			// read of element i at iteration i
+			sv := w.tmp("s")
+			before = append(before, &ast.AssignStmt{Lhs: []ast.Expr{id(sv)}, Tok: token.DEFINE, Rhs: []ast.Expr{s.X}})
+			s.X = id(sv)
+			key, _ := s.Key.(*ast.Ident)
+			if key == nil || key.Name == "_" {
+				key = id(w.tmp("i"))
+				s.Key = key
+				s.Tok = token.DEFINE
+			}
+			st := exprStmt(call("vhAccIdx",
+				thunk(&ast.FieldList{List: []*ast.Field{{Type: &ast.InterfaceType{Methods: &ast.FieldList{}}}, {Type: id("int")}, {Type: id("int")}}},
+					&ast.ReturnStmt{Results: []ast.Expr{id(sv), id(key.Name), intLit(1)}}),
+				lit(name), id("false"), lit(w.site(s))))
+			s.Body.List = append([]ast.Stmt{st}, s.Body.List...)
+			w.count("accrange")
+		}
 	case *ast.SwitchStmt:
 		before = w.header(s.Init)
 		if s.Tag != nil {
@@ -503,8 +544,30 @@ func (w *weaver) pure(e ast.Expr) bool {
 		return w.pure(e.X) && w.pure(e.Index)
 	case *ast.UnaryExpr:
 		return e.Op == token.AND && w.pure(e.X)
+	case *ast.BinaryExpr:
+		switch e.Op {
+		case token.ADD, token.SUB, token.MUL:
+			return w.pure(e.X) && w.pure(e.Y)
+		}
+	case *ast.CallExpr:
+		if f, ok := e.Fun.(*ast.Ident); ok && (f.Name == "len" || f.Name == "cap") && len(e.Args) == 1 {
+			if _, isB := w.info().Uses[f].(*types.Builtin); isB {
+				return w.pure(e.Args[0])
+			}
+		}
 	}
 	return false
+}
+
+func (w *weaver) sliceName(e ast.Expr) (string, bool) {
+	t := w.info().TypeOf(e)
+	if t == nil {
+		return "", false
+	}
+	if _, ok := t.Underlying().(*types.Slice); !ok {
+		return "", false
+	}
+	return types.TypeString(t, func(p *types.Package) string { return p.Name() }) + "[]", true
 }
 
 // ---------------------------------------------------------------------------
@@ -798,7 +861,7 @@ func (w *weaver) wrap(kind int, obj ast.Expr, site string, c *ast.CallExpr, typ 
 	var src string
 	var body []ast.Stmt
 	if len(strs) == 0 {
-		src = "func NAME(kind int, obj interface{}, site string, f func()) {\n\tvhPre(kind, obj, site)\n\tf()\n\tvhPost(kind, obj, site, 0)\n}\n"
+		src = "func NAME(kind int, obj interface{}, site string, f func()) {\n\tg := vhPre(kind, obj, site)\n\tf()\n\tvhPost(g, kind, obj, site, 0)\n}\n"
 		body = []ast.Stmt{exprStmt(c)}
 	} else {
 		rs := "(" + strings.Join(strs, ", ") + ")"
@@ -806,7 +869,7 @@ func (w *weaver) wrap(kind int, obj ast.Expr, site string, c *ast.CallExpr, typ 
 		for i := range strs {
 			names = append(names, fmt.Sprintf("r%d", i))
 		}
-		src = fmt.Sprintf("func NAME(kind int, obj interface{}, site string, f func() %s) %s {\n\tvhPre(kind, obj, site)\n\t%s := f()\n\tvhPost(kind, obj, site, 0)\n\treturn %s\n}\n",
+		src = fmt.Sprintf("func NAME(kind int, obj interface{}, site string, f func() %s) %s {\n\tg := vhPre(kind, obj, site)\n\t%s := f()\n\tvhPost(g, kind, obj, site, 0)\n\treturn %s\n}\n",
 			rs, rs, strings.Join(names, ", "), strings.Join(names, ", "))
 		body = []ast.Stmt{&ast.ReturnStmt{Results: []ast.Expr{c}}}
 	}
@@ -827,17 +890,17 @@ func (w *weaver) ioWrap(kind, site string, c *ast.CallExpr, res *types.Tuple) as
 	if VerifRT == nil {
 		return f()
 	}
-	mode, ferr := VerifRT.IOPre(kind, site)
+	g, mode, ferr := VerifRT.IOPre(kind, site)
 	if mode == 1 {
 		%s = ferr
-		VerifRT.IOPost(kind, site)
+		VerifRT.IOPost(g, kind, site)
 		return
 	}
 	%s = f()
 	if mode == 2 {
 		%s = ferr
 	}
-	VerifRT.IOPost(kind, site)
+	VerifRT.IOPost(g, kind, site)
 	return
 }
 `, rs, strings.Join(decls, ", "), last, strings.Join(names, ", "), last)
@@ -859,9 +922,9 @@ func (w *weaver) recv(u *ast.UnaryExpr, commaOk bool) ast.Expr {
 	w.count("recv")
 	var n string
 	if commaOk {
-		n = w.addTramp("recv2:"+es, fmt.Sprintf("func NAME(ch <-chan %s, site string) (%s, bool) {\n\tvhPre(%d, ch, site)\n\tv, ok := <-ch\n\taux := 0\n\tif ok {\n\t\taux = 1\n\t}\n\tvhPost(%d, ch, site, aux)\n\treturn v, ok\n}\n", es, es, kRecv, kRecv))
+		n = w.addTramp("recv2:"+es, fmt.Sprintf("func NAME(ch <-chan %s, site string) (%s, bool) {\n\tg := vhPre(%d, ch, site)\n\tv, ok := <-ch\n\taux := 0\n\tif ok {\n\t\taux = 1\n\t}\n\tvhPost(g, %d, ch, site, aux)\n\treturn v, ok\n}\n", es, es, kRecv, kRecv))
 	} else {
-		n = w.addTramp("recv:"+es, fmt.Sprintf("func NAME(ch <-chan %s, site string) %s {\n\tvhPre(%d, ch, site)\n\tv := <-ch\n\tvhPost(%d, ch, site, 0)\n\treturn v\n}\n", es, es, kRecv, kRecv))
+		n = w.addTramp("recv:"+es, fmt.Sprintf("func NAME(ch <-chan %s, site string) %s {\n\tg := vhPre(%d, ch, site)\n\tv := <-ch\n\tvhPost(g, %d, ch, site, 0)\n\treturn v\n}\n", es, es, kRecv, kRecv))
 	}
 	return &ast.CallExpr{Fun: id(n), Args: []ast.Expr{u.X, lit(site)}}
 }
@@ -876,7 +939,7 @@ func (w *weaver) rangeChan(s *ast.RangeStmt) (before []ast.Stmt, repl ast.Stmt, 
 	chv := w.tmp("ch")
 	okv := w.tmp("ok")
 	before = []ast.Stmt{&ast.AssignStmt{Lhs: []ast.Expr{id(chv)}, Tok: token.DEFINE, Rhs: []ast.Expr{s.X}}}
-	n := w.addTramp("recv2:"+es, fmt.Sprintf("func NAME(ch <-chan %s, site string) (%s, bool) {\n\tvhPre(%d, ch, site)\n\tv, ok := <-ch\n\taux := 0\n\tif ok {\n\t\taux = 1\n\t}\n\tvhPost(%d, ch, site, aux)\n\treturn v, ok\n}\n", es, es, kRecv, kRecv))
+	n := w.addTramp("recv2:"+es, fmt.Sprintf("func NAME(ch <-chan %s, site string) (%s, bool) {\n\tg := vhPre(%d, ch, site)\n\tv, ok := <-ch\n\taux := 0\n\tif ok {\n\t\taux = 1\n\t}\n\tvhPost(g, %d, ch, site, aux)\n\treturn v, ok\n}\n", es, es, kRecv, kRecv))
 	rcv := &ast.CallExpr{Fun: id(n), Args: []ast.Expr{id(chv), lit(site)}}
 	var head []ast.Stmt
 	key := s.Key
@@ -959,14 +1022,15 @@ func (w *weaver) selectStmt(s *ast.SelectStmt) (before []ast.Stmt, repl ast.Stmt
 	}
 	weaveBodies()
 	w.count("select")
-	before = []ast.Stmt{exprStmt(call("vhPre", intLit(kind), ch, lit(site)))}
+	tk := w.tmp("g")
+	before = []ast.Stmt{&ast.AssignStmt{Lhs: []ast.Expr{id(tk)}, Tok: token.DEFINE, Rhs: []ast.Expr{call("vhPre", intLit(kind), ch, lit(site))}}}
 	for _, c := range s.Body.List {
 		x := c.(*ast.CommClause)
 		aux := 0
 		if x.Comm != nil {
 			aux = 1
 		}
-		x.Body = append([]ast.Stmt{exprStmt(call("vhPost", intLit(kind), ch, lit(site), intLit(aux)))}, x.Body...)
+		x.Body = append([]ast.Stmt{exprStmt(call("vhPost", id(tk), intLit(kind), ch, lit(site), intLit(aux)))}, x.Body...)
 	}
 	return
 }
@@ -1027,6 +1091,12 @@ type acc struct {
 	text  string
 	name  string
 	write bool
+	// element accesses: expr is the slice, idx the first index, cnt the
+	// number of elements; app marks an append (indices len..len+cnt-1, only
+	// if it happens in place)
+	idx ast.Expr
+	cnt ast.Expr
+	app bool
 }
 
 func (w *weaver) exprText(e ast.Expr) string {
@@ -1059,6 +1129,7 @@ func isSyncType(t types.Type) bool {
 // itself (not by nested statement bodies or function literals).
 func (w *weaver) collect(s ast.Stmt) []acc {
 	var out []acc
+	simpleStmt := false
 	var visit func(e ast.Expr, write bool)
 	add := func(e ast.Expr, write bool) {
 		var name string
@@ -1123,6 +1194,9 @@ func (w *weaver) collect(s ast.Stmt) []acc {
 				visit(e.Y, false) // short-circuit operands may not be evaluated
 			}
 		case *ast.IndexExpr:
+			if name, ok := w.sliceName(e.X); ok && w.pure(e.X) && w.pure(e.Index) {
+				out = append(out, acc{expr: e.X, idx: e.Index, cnt: intLit(1), text: w.exprText(e), name: name, write: write})
+			}
 			if write {
 				if t := w.info().TypeOf(e.X); t != nil {
 					if _, isMap := t.Underlying().(*types.Map); isMap {
@@ -1148,6 +1222,22 @@ func (w *weaver) collect(s ast.Stmt) []acc {
 				visit(x, false)
 			}
 		case *ast.CallExpr:
+			if b, ok := w.callee(e).(*types.Builtin); ok && b.Name() == "append" && len(e.Args) >= 1 && simpleStmt {
+				if name, ok := w.sliceName(e.Args[0]); ok && w.pure(e.Args[0]) {
+					var cnt ast.Expr = intLit(len(e.Args) - 1)
+					okCnt := true
+					if e.Ellipsis.IsValid() {
+						if len(e.Args) == 2 && w.pure(e.Args[1]) {
+							cnt = call("len", e.Args[1])
+						} else {
+							okCnt = false
+						}
+					}
+					if okCnt {
+						out = append(out, acc{expr: e.Args[0], cnt: cnt, app: true, text: "append:" + w.exprText(e.Args[0]), name: name, write: true})
+					}
+				}
+			}
 			if fn, ok := w.callee(e).(*types.Func); ok && fn.Pkg() != nil && fn.Pkg().Path() == "sync/atomic" {
 				// operands of atomic operations are synchronisation, not plain accesses
 				for _, a := range e.Args {
@@ -1178,6 +1268,33 @@ func (w *weaver) collect(s ast.Stmt) []acc {
 			}
 		case *ast.FuncLit, *ast.BasicLit:
 		}
+	}
+	// an append can be annotated before its statement only if the statement
+	// performs no other call (which might synchronise)
+	ncalls := 0
+	ast.Inspect(s, func(n ast.Node) bool {
+		switch x := n.(type) {
+		case *ast.FuncLit:
+			return false
+		case *ast.CallExpr:
+			if tv, ok := w.info().Types[x.Fun]; ok && tv.IsType() {
+				return true // conversion
+			}
+			if f, ok := x.Fun.(*ast.Ident); ok {
+				if _, isB := w.info().Uses[f].(*types.Builtin); isB && (f.Name == "len" || f.Name == "cap") {
+					return true
+				}
+			}
+			ncalls++
+		case *ast.UnaryExpr:
+			if x.Op == token.ARROW {
+				ncalls += 2
+			}
+		}
+		return true
+	})
+	if as, ok := s.(*ast.AssignStmt); ok && ncalls == 1 {
+		simpleStmt = len(as.Rhs) == 1
 	}
 	switch s := s.(type) {
 	case *ast.ExprStmt:
@@ -1261,11 +1378,12 @@ func (w *weaver) genFile() []byte {
 	}
 	b.WriteString(`// VerifRuntime is what the simulator implements.
 type VerifRuntime interface {
-	Pre(kind int, obj interface{}, site string)
-	Post(kind int, obj interface{}, site string, aux int)
+	Pre(kind int, obj interface{}, site string) int
+	Post(g int, kind int, obj interface{}, site string, aux int)
 	Acc(addr interface{}, name string, write bool, site string)
-	IOPre(kind string, site string) (int, error)
-	IOPost(kind string, site string)
+	AccIdx(slice interface{}, first, n int, name string, write bool, site string)
+	IOPre(kind string, site string) (int, int, error)
+	IOPost(g int, kind string, site string)
 	Spawn(site string) int
 	Spawned(tok int, site string)
 	Start(tok int)
@@ -1278,15 +1396,19 @@ type VerifRuntime interface {
 // package behaves exactly like the unwoven source.
 var VerifRT VerifRuntime
 
-func vhPre(kind int, obj interface{}, site string) {
+// vhPre yields before an operation and returns the caller's simulated
+// goroutine (negative if the caller is not simulated); vhPost takes it back,
+// since the goroutine that completes an operation is the one that began it.
+func vhPre(kind int, obj interface{}, site string) int {
 	if VerifRT != nil {
-		VerifRT.Pre(kind, obj, site)
+		return VerifRT.Pre(kind, obj, site)
 	}
+	return -1
 }
 
-func vhPost(kind int, obj interface{}, site string, aux int) {
-	if VerifRT != nil {
-		VerifRT.Post(kind, obj, site, aux)
+func vhPost(g int, kind int, obj interface{}, site string, aux int) {
+	if VerifRT != nil && g >= 0 {
+		VerifRT.Post(g, kind, obj, site, aux)
 	}
 }
 
@@ -1301,6 +1423,23 @@ func vhAcc(f func() interface{}, name string, write bool, site string) {
 	}()
 	if p != nil {
 		VerifRT.Acc(p, name, write, site)
+	}
+}
+
+func vhAccIdx(f func() (interface{}, int, int), name string, write bool, site string) {
+	if VerifRT == nil {
+		return
+	}
+	var sl interface{}
+	var i, n int
+	ok := false
+	func() {
+		defer func() { recover() }()
+		sl, i, n = f()
+		ok = true
+	}()
+	if ok && sl != nil {
+		VerifRT.AccIdx(sl, i, n, name, write, site)
 	}
 }
 
